@@ -16,7 +16,7 @@ from ..actors import tid
 from ..interp import Frame, Interp, PanicEx, ReturnEx
 from ..native import build_native, run_native
 from ..prog import Program, Unsupported
-from ..values import NONE, UNIT, Opaque, REnum, RMap, RSet, RStruct, RTuple, RVec, Ref, b_and, b_not, b_or, err, key_of, ok, simp, some
+from ..values import NONE, UNIT, Opaque, REnum, RMap, RSet, RStruct, RTuple, RVec, Ref, b_and, b_not, b_or, err, key_of, ok, simp, some, Union
 from ..vfsworld import ABSENT, DIR, FILE, VfsWorld
 
 BAD = 'bad\udcff'      # a file name that is not valid UTF-8 (surrogate-escaped byte 0xff)
@@ -272,6 +272,37 @@ def relevant_ref(path, exts):
     return True
 
 
+def _ek(variant, *inner):
+    v = None
+    for ty, var in reversed(inner):
+        v = REnum(ty, var, {0: v} if v is not None else None)
+    return REnum('EventKind', variant, {0: v} if v is not None else None)
+
+
+# what a back end may report for a change of a file: (code understood by the native runtime, notify::EventKind value)
+EVENT_KINDS = [
+    (0, 'Modify(Data(Any))', _ek('Modify', ('ModifyKind', 'Data'), ('DataChange', 'Any'))),
+    (1, 'Create(File)', _ek('Create', ('CreateKind', 'File'))),
+    (2, 'Remove(File)', _ek('Remove', ('RemoveKind', 'File'))),
+    (3, 'Modify(Name(From))', _ek('Modify', ('ModifyKind', 'Name'), ('RenameMode', 'From'))),
+    (4, 'Modify(Name(To))', _ek('Modify', ('ModifyKind', 'Name'), ('RenameMode', 'To'))),
+    (5, 'Modify(Name(Both))', _ek('Modify', ('ModifyKind', 'Name'), ('RenameMode', 'Both'))),
+    (6, 'Any', _ek('Any')),
+    (7, 'Modify(Any)', _ek('Modify', ('ModifyKind', 'Any'))),
+    (8, 'Create(Any)', _ek('Create', ('CreateKind', 'Any'))),
+]
+
+
+def event(paths, kind_sym=None):
+    """An Ok event. With kind_sym (a bit-vector) the kind is a solver-chosen member of EVENT_KINDS, resolved lazily: the
+    exploration forks on it only if the code under analysis looks at `event.kind`."""
+    if kind_sym is None:
+        kind = EVENT_KINDS[0][2]
+    else:
+        kind = Union([(kind_sym == i, k[2]) for i, k in enumerate(EVENT_KINDS)])
+    return Opaque('Event', paths=RVec.of(paths), kind=kind, attrs=Opaque('EventAttributes'))
+
+
 def c16_explore(arg):
     name, exts, repo = arg
     t0 = time.time()
@@ -285,6 +316,7 @@ def c16_explore(arg):
         ev2 = z3.BitVec('ev_path2', 4)
         two = z3.Bool('ev_two_paths')
         is_err = z3.Bool('ev_is_err')
+        evk = z3.BitVec('ev_kind', 4)
 
         def init():
             world.reset()
@@ -310,20 +342,21 @@ def c16_explore(arg):
             if I.branch(is_err):
                 arg = err(Opaque('Error', kind=REnum('ErrorKind', 'Generic'), paths=RVec()))
             else:
-                arg = ok(Opaque('Event', paths=RVec.of(paths)))
+                # (the kind is symbolic for single-path events only: keeps the product of choices within the path budget)
+                arg = ok(event(paths, evk if len(paths) == 1 else None))
             I.call_value(world.handlers[0], [arg])
             sends = [e for e in I.effects[before:] if e[0] == 'send']
             # a second, certainly relevant, event some time later (the callback may keep state between events)
             before2 = len(I.effects)
             tries_before = I.fresh_counter.get('slot_full', 0)
-            I.call_value(world.handlers[0], [ok(Opaque('Event', paths=RVec.of(['/p/src/a.rs'] if exts is None or '.rs' in exts else ['/p/src/a' + exts[0]])))])
+            I.call_value(world.handlers[0], [ok(event(['/p/src/a.rs'] if exts is None or '.rs' in exts else ['/p/src/a' + exts[0]]))])
             sends2 = [e for e in I.effects[before2:] if e[0] == 'send']
             tried2 = I.fresh_counter.get('slot_full', 0) > tries_before
             return {'new': 'ok', 'handlers': nh, 'paths': paths, 'sends': len(sends), 'sends2': len(sends2), 'tried2': tried2}
         I.solver.reset()
         for c in world.constraints([1]):
             I.solver.add(c)
-        I.solver.add(z3.ULT(ev1, len(EVENT_PATHS)), z3.ULT(ev2, len(EVENT_PATHS)))
+        I.solver.add(z3.ULT(ev1, len(EVENT_PATHS)), z3.ULT(ev2, len(EVENT_PATHS)), z3.ULT(evk, len(EVENT_KINDS)), z3.Implies(two, evk == 0))
         paths = I.explore(thunk, init)
         out['paths'] = len(paths)
         out['functions'] = sorted(I.stats['fns'])
@@ -331,7 +364,7 @@ def c16_explore(arg):
         s.set('timeout', 60000)
         for c in world.constraints([1]):
             s.add(c)
-        s.add(z3.ULT(ev1, len(EVENT_PATHS)), z3.ULT(ev2, len(EVENT_PATHS)))
+        s.add(z3.ULT(ev1, len(EVENT_PATHS)), z3.ULT(ev2, len(EVENT_PATHS)), z3.ULT(evk, len(EVENT_KINDS)), z3.Implies(two, evk == 0))
         full = z3.Bool('slot_full#0')
         obs = {n: {'name': '%s[%s]' % (n, name), 'verdict': 'unsat', 'checked_paths': 0} for n in
                ('no_panic_on_any_event', 'notifies_iff_a_relevant_path', 'missing_paths_do_not_fail_startup', 'a_later_relevant_event_is_not_dropped')}
@@ -351,6 +384,7 @@ def c16_explore(arg):
                 i2 = m.eval(ev2, model_completion=True).as_long()
                 obs[n]['event_paths'] = [EVENT_PATHS[i1 % len(EVENT_PATHS)]] + ([EVENT_PATHS[i2 % len(EVENT_PATHS)]] if z3.is_true(m.eval(two, model_completion=True)) else [])
                 obs[n]['event_is_err'] = z3.is_true(m.eval(is_err, model_completion=True))
+                obs[n]['event_kind'] = list(EVENT_KINDS[m.eval(evk, model_completion=True).as_long() % len(EVENT_KINDS)][:2])
             s.pop()
         for p in paths:
             if p.outcome == 'panic':
@@ -432,7 +466,7 @@ def c16_multi(arg):
             for idx in range(len(world.handlers)):
                 if any(w == idx and (q == root or q.startswith(root.rstrip('/') + '/')) for w, root in watched):
                     delivered.append(idx)
-                    I.call_value(world.handlers[idx], [ok(Opaque('Event', paths=RVec.of([q])))])
+                    I.call_value(world.handlers[idx], [ok(event([q]))])
             tried = I.fresh_counter.get('slot_full', 0) > tries_before
             return {'new': 'ok', 'path': q, 'tried': tried, 'watched': watched, 'delivered': delivered}
         I.solver.reset()
@@ -541,7 +575,7 @@ def native_missing_path(repo):
         shutil.rmtree(root, ignore_errors=True)
 
 
-def native_watch(exts, event_paths, repo, is_err=False):
+def native_watch(exts, event_paths, repo, is_err=False, kind_code=0):
     """Real watcher code over the notify model: deliver one event, then an ordinary change; returns (panicked, builds)."""
     binpath, info = build_native(repo)
     root = tempfile.mkdtemp(prefix='zx-watch-', dir=os.environ.get('VERIF_SCRATCH', '/var/tmp'))
@@ -557,8 +591,9 @@ def native_watch(exts, event_paths, repo, is_err=False):
         real_paths = [root + q for q in event_paths]
         sched = ['poll 0 t0.1 all', 'poll 2 t0.4 1', 'poll 0 t0.1 all', 'poll 2 t0.4 1', 'poll 0 t0.1 all', 'poll 2 -', 'poll 0 t0.1 all',
                  'exitscript 0 echo t', 'poll 2 -', 'poll 0 t0.1 all',
+                 'eventkind %d' % kind_code,
                  'notify 0 %s %s' % ('err' if is_err else 'ok', ' '.join(real_paths)), 'poll 2 t0.3 1', 'poll 0 t0.1 all', 'poll 2 -', 'poll 0 t0.1 all',
-                 'exitscript 0 echo t', 'poll 2 -', 'poll 0 t0.1 all',
+                 'exitscript 0 echo t', 'poll 2 -', 'poll 0 t0.1 all', 'eventkind 0',
                  'write %s/p/src/a.rs 1' % root, 'notify 0 ok %s/p/src/a.rs' % root, 'poll 2 t0.3 1', 'poll 0 t0.1 all', 'poll 2 -', 'poll 0 t0.1 all',
                  'signal', 'poll 1 -', 'poll 0 t0.0 1', 'drain']
         env = dict(os.environ)
@@ -685,6 +720,14 @@ def run(prop, tier, seed, repo, jobs):
                         panicked, spawns, rc, tail = native_watch(exts, ['/p/src/a.rs'], repo)
                         nat = {'panicked': panicked, 'spawns': spawns, 'expected_spawns': 3, 'rc': rc}
                         confirmed = (not panicked) and spawns < 3
+                    elif ob['name'].startswith('notifies_iff_a_relevant_path') and ob.get('event_paths'):
+                        # the real callback gets the same event (paths, kind), then an ordinary change: builds = 1 (start-up) + 1 iff the
+                        # event is relevant by the reference + 1 (the later change)
+                        rel = (not ob.get('event_is_err')) and any(relevant_ref(q, exts) for q in ob['event_paths'])
+                        kc = (ob.get('event_kind') or [0])[0]
+                        panicked, spawns, rc, tail = native_watch(exts, ob['event_paths'], repo, is_err=bool(ob.get('event_is_err')), kind_code=kc)
+                        nat = {'panicked': panicked, 'builds': spawns, 'expected_builds': 3 if rel else 2, 'event_kind': ob.get('event_kind'), 'rc': rc}
+                        confirmed = (not panicked) and spawns != (3 if rel else 2)
                     elif ob['name'].startswith('missing_paths_do_not_fail_startup'):
                         nat = native_missing_path(repo)
                         confirmed = nat['model_runtime_io_variant']['rc'] not in (0, 98) or nat['real_binary']['failed_at_startup']
